@@ -39,7 +39,7 @@ class C06(Check):
     }
     stubs = ['statistics/optimise phases summarised: per cluster and round an arbitrary (symbolic, diagonally dominant hence positive definite) MRF with an arbitrary ln det symbol; data and cluster means are fixed distinct patterns so that every obligation is linear arithmetic',
              'relabel phase, kernel, likelihood kernels, result assembly and repopulation: real (spread ranking and random draw symbolic)', 'slogdet/det -> opaque ln det symbol per matrix (same stub serves code and specification)',
-             'metrics summarised; stub pool; initial labels fixed pattern']
+             'metrics real (they run between the last relabel and the result assembly and must not disturb the state that is reported); stub pool; initial labels fixed pattern']
     assumptions = ['REAL arithmetic; LOG uninterpreted']
     outside_claim = ['T, K, n beyond bounds; rounding']
     canary = {'what': 'overall mean divides by the number of clusters\' lists instead of entries (uses cluster list)',
@@ -73,7 +73,7 @@ class C06(Check):
         # repopulation is real (min_cluster_size 1, any spread ranking, any draw): a run may go through
         # repopulation events, and one that ends with an under-populated cluster must not be touched again
         ml = MainLoop(Rp, c, K, n, modes={'relabel': 'real', 'point_ll': 'real', 'initial': 'summary',
-                                          'repopulate': 'real'},
+                                          'repopulate': 'real', 'bic': 'real', 'ch': 'real'},
                       spd='dominant', concrete_mean=mean_pattern)
         ml.s_initial = lambda k, d: [i % K for i in range(len(d))]
         old_random = Rp.cm.random
